@@ -324,3 +324,28 @@ def stage_liveness(pid, tier, seed, d, binp, st, ctx):
     ctx["log"]("liveness %s: %s hold under fairness on %d states" % (st["cfgname"], props, ds))
     return dict(coverage={"temporal_properties": props, "states": ds, "transitions": g, "fairness": "WF per actor burst, per client poll, clock"},
                 violations=[], traces=0, states=ds, transitions=g, samples=[], nontrivial_keys=[])
+
+
+def stage_apalache_mailbox(pid, tier, seed, d, binp, st, ctx):
+    """Apalache: the capacity invariant of the mailbox semaphore is inductive for EVERY capacity (symbolic Cap >= 1)."""
+    import shutil
+    src = "/verif/spec/apalache/MailboxInd.tla"
+    wd = os.path.join(d, "apalache")
+    os.makedirs(wd, exist_ok=True)
+    shutil.copy2(src, wd)
+    steps = [("base: Init => IndInv", ["--init=Init", "--inv=IndInv", "--length=0"]),
+             ("step: IndInv /\\ Next => IndInv'", ["--init=IndInit", "--inv=IndInv", "--length=1"]),
+             ("IndInv => CapacityBound", ["--init=IndInit", "--inv=CapacityBound", "--length=0"])]
+    res = []
+    for name, args in steps:
+        p = subprocess.run(["apalache-mc", "check", "--cinit=ConstInit"] + args + ["MailboxInd.tla"], cwd=wd, text=True,
+                           stdout=subprocess.PIPE, stderr=subprocess.STDOUT, timeout=1200)
+        ok = "The outcome is: NoError" in p.stdout
+        res.append({"obligation": name, "discharged": ok})
+        if not ok:
+            open(os.path.join(d, "apalache.out"), "w").write(p.stdout)
+            raise ctx["ToolError"]("MODEL FAILURE: Apalache could not establish '%s' for spec/apalache/MailboxInd.tla" % name)
+    shutil.rmtree(os.path.join(wd, "_apalache-out"), ignore_errors=True)
+    ctx["log"]("apalache: capacity invariant of the mailbox semaphore is inductive for every capacity (3 obligations)")
+    return dict(coverage={"tool": "apalache-mc 0.58", "obligations": res, "capacity": "symbolic, Cap >= 1", "senders": 5},
+                violations=[], traces=0, samples=[], nontrivial_keys=[])
